@@ -632,10 +632,10 @@ pub fn write(spec: &FileSpec, ch: &mut Chooser) -> (Vec<u8>, Layout) {
                 groups.push(vec![]);
             }
         }
-        // MALFORMED-but-loadable option (class "os.length", default off): every object stream of the section
+        // MALFORMED-but-loadable option (switch "os.length", never a choice point of an exploration): every object stream of the section
         // gets an indirect /Length whose integer lives in one further object stream written last (7.5.7
         // forbids this; readers that tolerate it resolve such containers late)
-        let late_lengths = !groups.is_empty() && w.ch.choose("os.length", 2) == 1;
+        let late_lengths = !groups.is_empty() && w.ch.switch("os.length");
         let mut container_lengths: Vec<(u32, i64)> = vec![];
         for (gi, group) in groups.iter().enumerate() {
             let cid = next_id;
